@@ -109,10 +109,51 @@ def run_batch(shard, crate, hs, mods, logdir, jobs):
         except Exception as e:
             errors.append('cannot read %s: %s' % (out_json, e))
     if not results:
+        results = parse_terse(text)
+        if results:
+            errors.append('kani-driver wrote no JSON (it crashed on the output of a failing CBMC run); results recovered from the terse log of %s' % log)
+    if not results:
         errs = [l for l in text.splitlines() if re.match(r'^error(\[E\d+\])?:', l) or 'internal compiler error' in l
                 or 'unexpectedly panicked' in l]
         errors.append('no results from cargo kani for crate %s (see %s): %s' % (crate, log, ' | '.join(errs[:6]) or 'no error line'))
     return results, errors, log, text
+
+def parse_terse(text):
+    """Fallback when kani-driver dies before writing --export-json: recover per-harness verdicts from the
+    terse log.  Only SUCCESSFUL harnesses with all covers satisfied are recovered as such; everything
+    else is reported with status 'Unknown' (inconclusive)."""
+    cur, out = {}, {}
+    lines = text.splitlines()
+    i = 0
+    while i < len(lines):
+        m = re.match(r'^Thread (\d+): Checking harness (\S+?)\.\.\.', lines[i])
+        if m:
+            cur[m.group(1)] = m.group(2)
+        m = re.match(r'^Thread (\d+):\s*$', lines[i])
+        if m and m.group(1) in cur:
+            name = cur[m.group(1)]
+            block = []
+            j = i + 1
+            while j < len(lines) and not lines[j].startswith('Thread '):
+                block.append(lines[j]); j += 1
+            b = '\n'.join(block)
+            ok = 'VERIFICATION:- SUCCESSFUL' in b
+            mf = re.search(r'\*\* (\d+) of (\d+) failed', b)
+            mc = re.search(r'\*\* (\d+) of (\d+) cover properties satisfied', b)
+            checks = []
+            if mf:
+                checks += [{'category': 'assertion', 'status': 'Success', 'description': 'recovered', 'location': {}}] * (int(mf.group(2)) - int(mf.group(1)))
+            if mc:
+                checks += [{'category': 'cover', 'status': 'Satisfied', 'description': 'recovered', 'location': {}}] * int(mc.group(1))
+                checks += [{'category': 'cover', 'status': 'Unsatisfiable', 'description': 'recovered', 'location': {}}] * (int(mc.group(2)) - int(mc.group(1)))
+            mt = re.search(r'Verification Time: ([\d.]+)s', b)
+            status = 'Success' if ok and mf and int(mf.group(1)) == 0 else 'Unknown'
+            out[name] = ({'harness_id': name, 'status': status, 'duration_ms': int(float(mt.group(1)) * 1000) if mt else 0,
+                          'checks': checks if status == 'Success' else []}, None)
+            i = j
+            continue
+        i += 1
+    return out
 
 def find_result(results, h):
     suffix = '::verif_kani_%s::%s' % (h.mod.module, h.name)
@@ -123,7 +164,8 @@ def find_result(results, h):
 
 def cpu_jobs(n_batches):
     c = os.cpu_count() or 4
-    return max(2, min(12, c // max(1, n_batches)))
+    # measured: more than ~6 concurrent CBMC processes slow each other down 5-8x on this machine (memory bound)
+    return max(2, min(6, c // max(1, n_batches)))
 
 def match_known(known, prop, h, f):
     for k in known:
@@ -169,7 +211,12 @@ def check(prop, tier, seed, only=None, jobs=0, write_evidence=True):
                 if not queue:
                     return
                 crate, lst = queue.pop(0)
-            ms = sorted({h.mod.module: h.mod for h in lst}.values(), key=lambda m: m.module)
+            ms = {h.mod.module: h.mod for h in lst}
+            byname = {m.module: m for m in mods}
+            for m in list(ms.values()):
+                for r in m.requires:
+                    ms[r] = byname[r]
+            ms = sorted(ms.values(), key=lambda m: m.module)
             try:
                 r, e, log, _ = run_batch(shard, crate, lst, ms, logdir, per)
             except vk.HarnessMismatch as ex:
@@ -266,7 +313,7 @@ def confirm_by_playback(shard, prop, h, d, rest, logdir):
     path = os.path.join(EVID, 'replay', '%s-%s.json' % (prop, h.name))
     rp['path'] = path
     try:
-        vk.sync_overlay(shard, [h.mod])
+        vk.sync_overlay(shard, with_requires(h.mod))
         log = vk.run_kani(shard, h.mod.crate, [h], os.path.join(logdir, 'playback'), jobs=1, playback=True)
         res, errs = vk.parse_log(open(log, errors='replace').read())
         tests = [r.playback for r in res.values() if r.playback and 'fn kani_concrete_playback' in r.playback]
@@ -291,9 +338,13 @@ def confirm_by_playback(shard, prop, h, d, rest, logdir):
     json.dump(rp, open(path, 'w'), indent=1)
     return rp
 
+def with_requires(mod):
+    byname = {m.module: m for m in vk.load_modules()}
+    return [mod] + [byname[r] for r in mod.requires]
+
 def run_playback(shard, h, test_src):
     name = re.search(r'fn (kani_concrete_playback_\w+)', test_src).group(1)
-    vk.sync_overlay(shard, [h.mod], extra_tests={h.mod.module: test_src})
+    vk.sync_overlay(shard, with_requires(h.mod), extra_tests={h.mod.module: test_src})
     env = vk.kani_env()
     env['CARGO_TARGET_DIR'] = os.path.join(shard.dir, 'target-playback')
     cmd = ['cargo', 'kani', 'playback', '-Z', 'concrete-playback', '-p', h.mod.crate, '--', name]
@@ -386,7 +437,7 @@ def selftest():
             assert key not in names, 'duplicate harness %s' % (key,)
             names.add(key)
             src = open(m.path).read()
-            assert re.search(r'fn %s\s*\(' % re.escape(h.name), src), 'harness fn %s missing in %s' % (h.name, m.path)
+            assert re.search(r'(fn %s\s*\(|\b%s =>)' % (re.escape(h.name), re.escape(h.name)), src), 'harness fn %s missing in %s' % (h.name, m.path)
         assert os.path.isfile(os.path.join(vk.REPO, m.attach)), 'attach point missing: %s' % m.attach
     say('selftest: %d modules, %d harnesses ok' % (len(mods), len(names)))
     return 0
